@@ -642,3 +642,52 @@ PROPS["C20"] = {
     "outside": "termination of the floating-point convergence loops (QR algorithm, SVD, msqrt, line search, optimisers): not decided here; invalid option values of the algorithm packages",
     "assumptions": ["a loop that does not terminate within the executor's step bound shows up as an undecided path (reported, never counted as held)"],
 }
+
+# ----------------------------------------------------------------------------- C04
+ZZ = ROOT + "/zzverif"
+
+
+def c04_jobs(tier):
+    jobs = []
+    quick = tier == "quick"
+
+    def J(f, a, **kw):
+        jobs.append(dict({"pkg": ZZ, "func": f, "args": a, "mode": "real", "intmode": "int"}, **kw))
+    for kind in (0, 1):
+        for n in ((1, 2) if quick else (1, 2, 3)):
+            for tri in (0, 1):
+                J("verif_C04_gaussJordan", [kind, n, tri])
+            for variant in range(4):
+                J("verif_C04_inverse", [kind, n, variant])
+            J("verif_C04_backsub", [kind, n])
+            J("verif_C04_determinant", [kind, n])
+        if quick:
+            J("verif_C04_gaussJordan", [kind, 3, 0], obl_cap_ms=30000)
+            J("verif_C04_gaussJordan", [kind, 3, 1])
+            J("verif_C04_determinant", [kind, 3])
+            J("verif_C04_backsub", [kind, 3])
+        for n in (3, 4):
+            import math
+            for perm in range(math.factorial(n)):
+                if quick and n == 4 and kind == 1 and perm % 3 != 0:
+                    continue
+                J("verif_C04_pivots", [kind, n, perm])
+    return jobs
+
+
+PROPS["C04"] = {
+    "overlay": [RT, ("zzverif/c04.go", "zzverif/c04.go")],
+    "patterns": ["./zzverif"],
+    "mode": "real", "intmode": "int",
+    "jobs": c04_jobs,
+    "reach": ["gj-returned", "inverse-returned", "backsub-returned", "det-returned", "pivots"],
+    "replay_tol": 1e-6,
+    "job_budget_ms": {"quick": 150000, "thorough": 1500000},
+    "selftest_vars": [],
+    "bounds": {"quick": "Gauss-Jordan, matrixInverse (default / positive-definite / upper-triangular / caller-supplied in-situ buffers), back substitution, determinant on fully symbolic 1x1 and 2x2 (3x3: Gauss-Jordan, back substitution, determinant) "
+                        "Float64 and Real64 matrices, every pivot path; every pivot order at n=3,4 on permuted diagonal matrices; real interpretation, fraction-lifted NRA",
+               "thorough": "fully symbolic 3x3 for every routine and option"},
+    "outside": "conditioning / backward error of the floating-point evaluation (the statement's tolerance clause); fully symbolic n>3; the structurally-singular clause is checked in fp mode only for n=2 (thorough)",
+    "assumptions": ["floats read as reals, every division's denominator assumed non-zero (interior of the domain)",
+                    "counterexamples are replayed natively in float64 with relative tolerance 1e-6"],
+}
